@@ -33,6 +33,37 @@ MAP = {
 }
 
 
+FUNC_MAP = {
+    # nn.py
+    "_histogram_encode": ["C04", "C11", "C07", "C14"], "_cal_levenshtein": ["C04", "C11", "C07"], "_cal_custom_dist": ["C14", "C11"],
+    "_to_triplets": ["C11", "C04", "C14"], "_to_len_bucket": ["C07", "C10"], "kdtree": ["C04", "C07", "C11", "C10", "C14"],
+    "_kdtree_leven": ["C04", "C11", "C14", "C07"], "_generate_neighbors": ["C04", "C03", "C07", "C14"],
+    "hash_based": ["C04", "C07", "C10", "C14"], "_comb_gen": ["C01", "C03", "C07"],
+    "_hamming_replacement": ["C07"], "symdel": ["C01", "C03", "C14", "C07", "C10"], "nearest_neighbor": ["C01", "C03", "C10", "C14"],
+    "_lookup": ["C14"], "nearest_neighbor_tcrdist": ["C14", "C20"], "_flatten_array": ["C04", "C11"],
+    "_check_common_input": ["C10", "C01", "C14"], "_make_output": ["C10", "C03"],
+    # stats.py
+    "powerlaw_sample": ["C17"], "subsample": ["C17"], "_discrete_loglikelihood": ["C17"], "powerlaw_mle_alpha": ["C17"],
+    "pc_n": ["C02", "C06"], "pc": ["C02", "C06", "C05"], "pc_joint": ["C02", "C13"], "pc_grouped_cross": ["C13"], "pc_conditional": ["C13"],
+    "varpc_n": ["C06"], "stdpc_n": ["C06"], "stdpc": ["C06", "C13"], "stdpc_joint": ["C06", "C13"], "chao1": ["C16"], "var_chao1": ["C16"],
+    "chao2": ["C16"], "var_chao2": ["C16"], "jaccard_index": ["C16"], "overlap": ["C16"], "overlap_coefficient": ["C16"],
+    # distance.py
+    "pdist": ["C08"], "cdist": ["C08"], "downsample": ["C17", "C05"], "pcDelta": ["C05", "C13"], "get_default_metric_for_input_data": ["C05", "C15"],
+    "pcDelta_grouped": ["C13"], "pcDelta_grouped_cross": ["C13"], "load_pcDelta_background": ["C05"],
+    "levenshtein_neighbors": ["C12", "C04"], "hamming_neighbors": ["C12", "C07"], "_flatten_list": ["C12"], "next_nearest_neighbors": ["C12"],
+    "find_neighbor_pairs": ["C12"], "find_neighbor_pairs_index": ["C12"], "calculate_neighbor_numbers": ["C12"], "isdist1": ["C12"],
+    "_isdist2_hamming": ["C12"], "_isdist3_hamming": ["C12"], "nndist_hamming": ["C12"], "hierarchical_clustering": ["C15", "C20"],
+}
+
+
+def checks_for(rec):
+    f = FUNC_MAP.get(rec.get("func")) if rec["module"] in ("pyrepseq.nn", "pyrepseq.stats", "pyrepseq.distance") else None
+    base = MAP[rec["module"]]
+    if f:
+        return f + (["C20"] if "C20" not in f else [])
+    return base
+
+
 def one(rec, mdir):
     mod, n = rec["module"], rec["n"]
     tmp = tempfile.mkdtemp(prefix="mutscan.", dir="/tmp")
@@ -46,7 +77,7 @@ def one(rec, mdir):
             res["result"] = "broken"
             return res
         res["checks_run"] = []
-        for c in MAP[mod]:
+        for c in checks_for(rec):
             work = os.path.join(tmp, "_verifwork")
             r = subprocess.run([PY, os.path.join(VERIF, "run.py"), c, "--tier", "quick", "--shards", "4"], cwd=VERIF, env=env,
                                capture_output=True, text=True, timeout=3600)
